@@ -90,6 +90,10 @@ fn dispatch(op: &str, args: &[&str]) -> String {
         "own_master" => op_own::<Master>(args),
         "repeat_media" => op_repeat::<Media>(args),
         "repeat_master" => op_repeat::<Master>(args),
+        "bmedia" => builder::op_bmedia(args),
+        "laws" => laws::op_laws(args),
+        "assoc" => laws::op_assoc(args),
+        "btag" => builder::op_btag(args),
         // "decr_none": not implemented yet
         _ => BADOP.to_string(),
     }
@@ -221,17 +225,21 @@ fn roundtrip<K: Kind>(text: &str, excess: Option<Duration>) -> String {
         Some(None) => return ERR.to_string(),
         Some(Some(x)) => x,
     };
+    value_result::<K>(&x, excess, text.len())
+}
 
-    let mut out = String::with_capacity(64 + text.len() * 8);
+/// `ok (RES DUMP (rv N) TEXT RE)` for a value that was obtained somehow.
+fn value_result<K: Kind>(x: &K::P<'_>, excess: Option<Duration>, size_hint: usize) -> String {
+    let mut out = String::with_capacity(64 + size_hint * 8);
     out.push_str("ok (");
     out.push_str(K::RES);
     out.push(' ');
-    K::dump(&x, &mut out);
+    K::dump(x, &mut out);
     out.push(' ');
     observe::rv(&mut out, x.required_version());
     out.push(' ');
 
-    match display_guarded(&x) {
+    match display_guarded(x) {
         None => out.push_str("panic (re skipped)"),
         Some(t) => {
             observe::text(&mut out, &t);
